@@ -5,13 +5,6 @@ From PieV Require Import Model.Dag Model.Build Model.Dsl.
 Import ListNotations.
 Open Scope N_scope.
 
-Fixpoint run_history (tb : table) (fuel : nat) (w : world) (h : list step) : list (list sres) * world :=
-  match h with
-  | [] => ([], w)
-  | s :: tl => let '(r, w') := run_step tb fuel w s in
-               let '(rs, w'') := run_history tb fuel w' tl in (r :: rs, w'')
-  end.
-
 Definition executed (w : world) : list task :=
   rev (flat_map (fun e => match e with EExecStart t => [t] | _ => [] end) (trace w)).
 
@@ -26,9 +19,9 @@ Definition tb_O4 : table := [(2, CReq 1 EQ CDone); (1, CRead 1 EXACT CDone)].
 Definition h_O4 : list step :=
   [HEdit 1 (Some 1%Z); HSession [SRequire 2]; HEdit 1 (Some 2%Z); HSession [SRequire 1]; HSession [SBottomUp [1]]; HSession [SRequire 2]].
 Lemma C03_mixed_refuted :
-  executed (snd (run_history tb_O4 FUEL init_world h_O4)) = [2] /\
+  executed (snd (dsl_run_history tb_O4 FUEL init_world h_O4)) = [2] /\
   (* the bottom-up build itself executed nothing *)
-  executed (snd (run_history tb_O4 FUEL init_world (firstn 5 h_O4))) = [].
+  executed (snd (dsl_run_history tb_O4 FUEL init_world (firstn 5 h_O4))) = [].
 Proof. vm_compute. split; reflexivity. Qed.
 
 (* ---- C08 (O7): the same task required twice with different checkers keeps only the last checker *)
@@ -36,9 +29,9 @@ Definition tb_O7 : table := [(0, CReq 1 EQ (CReq 1 ALWAYS CDone)); (1, CRead 0 E
 Definition h_O7 : list step := [HEdit 0 (Some 1%Z); HSession [SRequire 0]; HEdit 0 (Some 2%Z); HSession [SRequire 0]].
 Lemma C08_general_refuted :
   (* after the first build the store holds ONE require dependency of task 0, with the second checker *)
-  map snd (get_outgoing_edges (gr (snd (run_history tb_O7 FUEL init_world (firstn 2 h_O7)))) (tn 0)) = [Some (DRequire 1 ALWAYS 0%Z)] /\
+  map snd (get_outgoing_edges (gr (snd (dsl_run_history tb_O7 FUEL init_world (firstn 2 h_O7)))) (tn 0)) = [Some (DRequire 1 ALWAYS 0%Z)] /\
   (* and the changed output of task 1 does not re-execute task 0 *)
-  executed (snd (run_history tb_O7 FUEL init_world h_O7)) = [1].
+  executed (snd (dsl_run_history tb_O7 FUEL init_world h_O7)) = [1].
 Proof. vm_compute. split; reflexivity. Qed.
 
 (* ---- C05 "Hence" clause (O6): R requires X requires W; W writes r5; R reads r5.  X drops the require of W but returns the
@@ -49,8 +42,8 @@ Definition tb_O6 : table :=
    (2, CWrite 5 EXACT (EConst 3) CDone)].                                   (* W *)
 Definition h_O6 : list step := [HEdit 0 (Some 1%Z); HSession [SRequire 0]; HEdit 0 (Some 2%Z); HSession [SRequire 0]].
 Lemma C05_final_store_refuted :
-  let w := snd (run_history tb_O6 FUEL init_world h_O6) in
-  all_done (fst (run_history tb_O6 FUEL init_world h_O6)) = true /\
+  let w := snd (dsl_run_history tb_O6 FUEL init_world h_O6) in
+  all_done (fst (dsl_run_history tb_O6 FUEL init_world h_O6)) = true /\
   get_task_writing_to_resource w 5 = Some 2 /\ existsb (N.eqb 0) (get_tasks_reading_from_resource w 5) = true /\
   contains_transitive_task_dependency w 0 2 = Some false.
 Proof. vm_compute. repeat split; reflexivity. Qed.
@@ -59,31 +52,31 @@ Proof. vm_compute. repeat split; reflexivity. Qed.
 Definition on0 (view : Z) (th el : code) : code := CRead 0 EXACT (CIf (CLastEq view) th el).
 Definition tb_O5a : table := [(1, on0 1 (CWrite 10 EXACT (EConst 5) CDone) CDone); (2, on0 2 (CWrite 10 EXACT (EConst 6) CDone) CDone)].
 Lemma C20_dynamic_refuted_overlap :
-  List.last (fst (run_history tb_O5a FUEL init_world [HEdit 0 (Some 0%Z); HSession [SRequire 1]; HEdit 0 (Some 1%Z); HSession [SRequire 2]]))
+  List.last (fst (dsl_run_history tb_O5a FUEL init_world [HEdit 0 (Some 0%Z); HSession [SRequire 1]; HEdit 0 (Some 1%Z); HSession [SRequire 2]]))
     [] = [RAbort AOverlap] /\
   (* a from-scratch build of both tasks in the current state succeeds in either order *)
-  all_done (fst (run_history tb_O5a FUEL init_world [HEdit 0 (Some 1%Z); HSession [SRequire 1; SRequire 2]])) = true /\
-  all_done (fst (run_history tb_O5a FUEL init_world [HEdit 0 (Some 1%Z); HSession [SRequire 2; SRequire 1]])) = true.
+  all_done (fst (dsl_run_history tb_O5a FUEL init_world [HEdit 0 (Some 1%Z); HSession [SRequire 1; SRequire 2]])) = true /\
+  all_done (fst (dsl_run_history tb_O5a FUEL init_world [HEdit 0 (Some 1%Z); HSession [SRequire 2; SRequire 1]])) = true.
 Proof. vm_compute. repeat split; reflexivity. Qed.
 
 (* ---- C20 (O5b): the require direction flips and the new requirer is built first: spurious "Cyclic task dependency" *)
 Definition tb_O5b : table := [(1, on0 1 (CReq 2 EQ CDone) CDone); (2, on0 2 (CReq 1 EQ CDone) CDone)].
 Lemma C20_dynamic_refuted_cycle :
-  List.last (fst (run_history tb_O5b FUEL init_world [HEdit 0 (Some 0%Z); HSession [SRequire 1]; HEdit 0 (Some 1%Z); HSession [SRequire 2]])) []
+  List.last (fst (dsl_run_history tb_O5b FUEL init_world [HEdit 0 (Some 0%Z); HSession [SRequire 1]; HEdit 0 (Some 1%Z); HSession [SRequire 2]])) []
     = [RAbort ACycle] /\
   forallb (fun r => match r with RDone _ => true | _ => false end)
-    (List.last (fst (run_history tb_O5b FUEL init_world [HEdit 0 (Some 1%Z); HSession [SRequire 2; SRequire 1]])) []) = true /\
+    (List.last (fst (dsl_run_history tb_O5b FUEL init_world [HEdit 0 (Some 1%Z); HSession [SRequire 2; SRequire 1]])) []) = true /\
   forallb (fun r => match r with RDone _ => true | _ => false end)
-    (List.last (fst (run_history tb_O5b FUEL init_world [HEdit 0 (Some 1%Z); HSession [SRequire 1; SRequire 2]])) []) = true.
+    (List.last (fst (dsl_run_history tb_O5b FUEL init_world [HEdit 0 (Some 1%Z); HSession [SRequire 1; SRequire 2]])) []) = true.
 Proof. vm_compute. repeat split; reflexivity. Qed.
 
 (* ---- C20 (O5c): a stale reader edge and a new writer built first: spurious "Hidden dependency" *)
 Definition tb_O5c : table := [(3, on0 1 (CRead 10 EXACT CDone) CDone); (1, on0 2 (CWrite 10 EXACT (EConst 7) CDone) CDone)].
 Lemma C20_dynamic_refuted_hidden :
-  List.last (fst (run_history tb_O5c FUEL init_world [HEdit 0 (Some 0%Z); HSession [SRequire 3]; HEdit 0 (Some 1%Z); HSession [SRequire 1]])) []
+  List.last (fst (dsl_run_history tb_O5c FUEL init_world [HEdit 0 (Some 0%Z); HSession [SRequire 3]; HEdit 0 (Some 1%Z); HSession [SRequire 1]])) []
     = [RAbort AHidden] /\
   forallb (fun r => match r with RDone _ => true | _ => false end)
-    (List.last (fst (run_history tb_O5c FUEL init_world [HEdit 0 (Some 1%Z); HSession [SRequire 1; SRequire 3]])) []) = true /\
+    (List.last (fst (dsl_run_history tb_O5c FUEL init_world [HEdit 0 (Some 1%Z); HSession [SRequire 1; SRequire 3]])) []) = true /\
   forallb (fun r => match r with RDone _ => true | _ => false end)
-    (List.last (fst (run_history tb_O5c FUEL init_world [HEdit 0 (Some 1%Z); HSession [SRequire 3; SRequire 1]])) []) = true.
+    (List.last (fst (dsl_run_history tb_O5c FUEL init_world [HEdit 0 (Some 1%Z); HSession [SRequire 3; SRequire 1]])) []) = true.
 Proof. vm_compute. repeat split; reflexivity. Qed.
